@@ -109,6 +109,29 @@ def finish(res: Result, tier: str, seed: int, t0: float, selftest: Optional[dict
                 "the rule no longer sees the constructs it was confirmed on"
             )
 
+    # sites: a rule must still decide something in every function in which it decided something on the reviewed tree
+    try:
+        with open(os.path.join(VERIF, "tables", "rule_sites.json"), encoding="utf-8") as fh:
+            sites = json.load(fh).get("sites", {}).get(pid, {})
+    except FileNotFoundError:
+        sites = {}
+    tree_functions = getattr(res, "tree_functions", None)
+    decided_in: Dict[tuple, int] = {}
+    undecided_in: Dict[tuple, int] = {}
+    for i in insts:
+        tgt = decided_in if i.verdict in (OK, VIOLATION) else undecided_in
+        tgt[(i.rule, i.function)] = tgt.get((i.rule, i.function), 0) + 1
+    lost = []
+    for rule, fns in sites.items():
+        for fn in fns:
+            if tree_functions is not None and fn not in tree_functions and not any(f == fn or f.startswith(fn + ".") for f in tree_functions):
+                continue        # the function itself is gone: reported by the rules that are anchored in it
+            if decided_in.get((rule, fn), 0) == 0:
+                lost.append((rule, fn, undecided_in.get((rule, fn), 0)))
+    for rule, fn, und in lost[:6]:
+        soft_errors.append(f"rule {rule} no longer decides anything in {fn} ({und} undecided) — it did on the reviewed tree "
+                           "(tables/rule_sites.json): the construct it was confirmed on is no longer recognised")
+
     print(f"pv: property={pid} tier={tier} analysed={json.dumps(res.analysed, sort_keys=True)}")
     for rule in sorted(by_rule):
         d = by_rule[rule]
